@@ -155,6 +155,18 @@ def eval_repair(item):
         if also_new:
             run_xp(ws0, pair, also_new, use_new=True)
         D.set_deprecated(old_cls, True)
+        if item.get("relocated"):
+            # the directory of the replacement type lives on another volume and is linked into jobs/ (a legal layout: directories
+            # under jobs/ are only ever reached through their path)
+            newtype = str(getattr(D, new_name).__getxpmtype__().identifier)
+            vol = ws0 / "volume2"
+            vol.mkdir()
+            tdir = ws0 / "jobs" / newtype
+            if tdir.is_dir():
+                shutil.move(str(tdir), str(vol / newtype))
+            else:
+                (vol / newtype).mkdir()
+            tdir.symlink_to(vol / newtype)
         # ground truth: original data of every former job
         original = {}
         for x, rel in rec_old.items():
@@ -270,6 +282,8 @@ REPAIR_SCENARIOS = [
     {"pair": "moved", "old": {"1": 0, "2": 0}, "also_new": [2]},
     {"pair": "renamed", "old": {"1": 0}},
     {"pair": "renamed", "old": {"1": 0, "2": 3}},
+    {"pair": "moved", "old": {"1": 0}, "relocated": True},
+    {"pair": "moved", "old": {"1": 0, "2": 0}, "also_new": [2], "relocated": True},
 ]
 
 
